@@ -15,6 +15,11 @@ CLAIMED["C06"] = ("For each of the 7 block codes: systematic encoder, generate =
                   "reported uncorrectable. Complete for the property's quantifier (no bound left out).", "6/C06")
 CLAIMED["C02"] = ("All 2^96 messages are covered in every run (message bits symbolic). quick: no error, all 196 single errors (split and symbolic position), a seeded "
                   "subset (~3,000) of the 19,110 double errors; thorough: all 19,306 patterns of weight <= 2.", "6/C02")
+CLAIMED["C09"] = ("All 2^72 / 2^28 / 2^11 messages (message bits symbolic): extraction, row Hamming codes, column parities, checksum read-back == computed checksum, "
+                  "three encode input forms agree. Complete for the property's quantifier.", "6/C09")
+CLAIMED["C10"] = ("All 2^144 blocks as bits and bytes (decode(encode(x)) == x, 196 bits out), both permutation identities over symbolic arrays, symbol-mapping layers "
+                  "bijective for all 2^196 streams, and the decoder step at each of the 49 positions from every reachable state with every received point: rejected <=> "
+                  "not a point the encoder can emit there.", "6/C10")
 NOT_YET = {}
 props = [json.loads(l) for l in open(os.path.join(V, "properties.jsonl"))]
 checks = []
